@@ -23,6 +23,8 @@ func QuoteSoy(s string, esc int) string {
 			b.WriteString(`\\`)
 		case r == '\'':
 			b.WriteString(`\'`)
+		case esc == 3 && (r == '\n' || r == '\r' || r == '\t'):
+			b.WriteRune(r) // (a literal may run over several lines: the line break is one of its characters)
 		case r == '\n':
 			b.WriteString(`\n`)
 		case r == '\r':
@@ -440,7 +442,7 @@ func (p *printer) cmd(c *Cmd) {
 	b := &p.b
 	switch c.K {
 	case "text":
-		b.WriteString(c.Text)
+		b.WriteString(ExpandRaw(c.Text))
 	case "sp", "nil", "lb", "rb":
 		b.WriteString("{" + c.K + "}")
 	case "nl":
@@ -606,23 +608,44 @@ func PrintFile(f *File) string {
 		t := &f.Templates[ti]
 		b.WriteString(nl)
 		if !t.Header || t.BothDecls {
+			// (layouts of a doc comment: the usual one, a description line first, text behind the names,
+			// no asterisks, everything closed right behind the last name)
+			layout := (len(t.Name)*5 + len(t.Params)*3) % 11
 			b.WriteString("/**" + nl)
-			for _, pd := range t.Params {
+			if layout == 3 || layout == 7 {
+				b.WriteString(" * Renders " + t.Name + " (see the @param lines)." + nl + " *" + nl)
+			}
+			for pi, pd := range t.Params {
 				// (a tab is white space too)
 				sep := " "
 				if (len(pd.Name)+len(t.Name))%5 == 2 {
 					sep = "\t"
 				}
+				lead, tail := " * ", nl
+				if layout == 5 {
+					lead = ""
+				}
+				if layout == 7 || layout == 8 {
+					tail = " The value of " + pd.Name + "." + nl
+				}
+				if layout == 9 && pi == len(t.Params)-1 {
+					tail = "" // the comment closes right behind the name
+				}
 				if pd.Optional {
-					b.WriteString(" * @param?" + sep + pd.Name + nl)
+					b.WriteString(lead + "@param?" + sep + pd.Name + tail)
 				} else {
-					b.WriteString(" * @param" + sep + pd.Name + nl)
+					b.WriteString(lead + "@param" + sep + pd.Name + tail)
 				}
 			}
 			// (the template tag may follow its soydoc on the same line)
-			if (len(t.Name)*3+len(t.Params))%7 == 4 {
+			switch {
+			case layout == 9 && len(t.Params) > 0:
+				b.WriteString("*/" + nl)
+			case (len(t.Name)*3+len(t.Params))%7 == 4:
 				b.WriteString(" */ ")
-			} else {
+			case layout == 6:
+				b.WriteString(" **/" + nl)
+			default:
 				b.WriteString(" */" + nl)
 			}
 		}
